@@ -42,6 +42,8 @@ type LogClient struct {
 	ConflictAtWrite int
 	OnConflict      func(rec WriteRec) // called when that conflict is injected, before the call returns: the concurrent writer
 	writesSeen      int
+	// FailAllPrefix != "": an outage - EVERY call whose description starts with it (e.g. "list ") fails with an InternalError
+	FailAllPrefix string
 	Calls     int    // API calls seen so far (reads and writes)
 	FaultHit  string // "" or a description of the call that was failed
 }
@@ -49,6 +51,10 @@ type LogClient struct {
 // callFault counts one API call and says whether it is the one to fail.
 func (l *LogClient) callFault(what string) error {
 	l.Calls++
+	if l.FailAllPrefix != "" && strings.HasPrefix(what, l.FailAllPrefix) {
+		l.FaultHit = "outage:" + what
+		return apierrors.NewInternalError(fmt.Errorf("injected outage (%s)", what))
+	}
 	n := l.FailCallN
 	if n < 0 {
 		n = -n
